@@ -431,6 +431,18 @@ template <class T> static void sweep (uint64_t seed, bool thorough, int lineBloc
         sb.D    = {T (0), T (1), T (-1), T (0.3), T (-0.3), T (0.7), T (-0.7), T (3), T (-3), T (1e-3), T (-1e-3)};
         boxes.push_back (sb);
     }
+    for (int side = 0; side < 2; ++side)
+    {
+        // origins a hair OUTSIDE a face that sits at coordinate 0 (gap denorm_min or 1e-30) with the extreme direction list: the ray
+        // parameter of the first contact, gap / dir, UNDERFLOWS TO ZERO for the huge directions.  `intersects (box, ray, ip)` must still
+        // write ip (its running maximum starts at -1, so t == 0 updates it); entry/exit likewise.  Tied bit for bit to the model.
+        SweepBox<T> sb;
+        sb.name = side ? "fixed-underflow-t-max" : "fixed-underflow-t-min";
+        sb.b    = side ? Box<Vec3<T>> (Vec3<T> (-1, -1, -1), Vec3<T> (0, 0, 0)) : Box<Vec3<T>> (Vec3<T> (0, 0, 0), Vec3<T> (1, 1, 1));
+        T sg    = side ? T (1) : T (-1);
+        for (int a = 0; a < 3; ++a) sb.P[a] = {sg * T (1e-30), sg * dn, -sg * T (0.5)};
+        boxes.push_back (sb);
+    }
     // --- seeded
     {
         T hw[3] = {T (0.5), T (1), T (2)};
